@@ -847,6 +847,23 @@ class SymStr(object):
         sc = cps_of(sub)
         if sc is None:
             raise TypeError('must be str')
+        if len(sc) == 1 and start == 0 and all(isinstance(c, int) for c in self.cps) and not isinstance(sc[0], int):
+            # one symbolic character looked up in a concrete string: an ITE chain, no fork
+            # maximal runs of consecutive code points (first occurrences only)
+            runs = []
+            seen = set()
+            for i, c in enumerate(self.cps):
+                if c in seen:
+                    continue
+                seen.add(c)
+                if runs and runs[-1][1] + runs[-1][2] == c and runs[-1][0] + runs[-1][2] == i:
+                    runs[-1][2] += 1
+                else:
+                    runs.append([i, c, 1])
+            r = z3.IntVal(-1)
+            for i, c0, n in reversed(runs):
+                r = z3.If(z3.And(sc[0] >= c0, sc[0] <= c0 + n - 1), sc[0] - c0 + i, r)
+            return mkint(r)
         for i in range(start, len(self.cps) - len(sc) + 1):
             if SymBool(z3.simplify(self._match_at(i, sc))):
                 return i
